@@ -1,4 +1,5 @@
 """C03 — stream framing (packet/stream.go, transport/base_conn.go, websocket_conn.go)."""
+import os
 
 ASSUMPTIONS = [
     "bufio.Reader is modelled by its contract (a byte stream; Peek(n<=5)/ReadFull pull from the source until enough bytes are buffered "
@@ -61,7 +62,7 @@ def run(ck):
     ck.coq()
     if not ck.build_harness("stream"):
         return
-    extra = ["-replay", ck.replay] if ck.replay else []
+    extra = ["-replay", os.path.abspath(ck.replay)] if ck.replay else []
     path, _ = ck.harness("c03", extra=extra)
     lines = ck.model("stream", "c03", path)
     classify(ck, path, lines, "Stream/Stream.v, EncStream.v, Transport/BaseConn.v ~ packet.Decoder/Encoder, mercury.Writer, transport.BaseConn")
